@@ -228,6 +228,16 @@ class _AttrCalls(ast.NodeTransformer):
         if isinstance(node.func, ast.Name) and node.func.id == "getattr" and len(node.args) == 2 and not node.keywords \
                 and isinstance(node.args[1], ast.Constant) and isinstance(node.args[1].value, str) and node.args[1].value.isidentifier():
             return ast.copy_location(ast.Attribute(value=node.args[0], attr=node.args[1].value, ctx=ast.Load()), node)
+        # all(all(P for y in x) for x in xs) -> all(P for x in xs for y in x)   (any / any alike): one quantifier over the nested iteration
+        if isinstance(node.func, ast.Name) and node.func.id in ("all", "any") and len(node.args) == 1 and not node.keywords \
+                and isinstance(node.args[0], ast.GeneratorExp):
+            ge = node.args[0]
+            inner = ge.elt
+            if isinstance(inner, ast.Call) and isinstance(inner.func, ast.Name) and inner.func.id == node.func.id and len(inner.args) == 1 \
+                    and not inner.keywords and isinstance(inner.args[0], ast.GeneratorExp):
+                ig = inner.args[0]
+                node.args[0] = ast.copy_location(ast.GeneratorExp(elt=ig.elt, generators=list(ge.generators) + list(ig.generators)), ge)
+                return node
         # N14: b"".join([a, b, c]) / "".join((a, b)) over a literal display of two or more items -> a + b + c
         if isinstance(node.func, ast.Attribute) and node.func.attr == "join" and isinstance(node.func.value, ast.Constant) \
                 and node.func.value.value in (b"", "") and len(node.args) == 1 and not node.keywords \
@@ -388,6 +398,86 @@ def _own_jumps(stmts):
     return n
 
 
+def _thread_boolean_result(blk):
+    """An inlined predicate whose every return is a boolean constant, called as the test of an `if`: each `<result> = K; jump` of the body is
+    replaced by a copy of the branch the `if` takes for K (jump threading), and the `if` on the temporary disappears."""
+    if len(blk.epilogue) != 1 or not isinstance(blk.epilogue[0], ast.If):
+        return
+    iff = blk.epilogue[0]
+    t, neg = iff.test, False
+    while isinstance(t, ast.UnaryOp) and isinstance(t.op, ast.Not):
+        t, neg = t.operand, not neg
+    if not (isinstance(t, ast.Name) and t.id == blk.ret):
+        return
+    sites = []
+
+    def scan(stmts, owner_ok=True):
+        for i, s_ in enumerate(stmts):
+            if isinstance(s_, InlineBlock):
+                # an inner block's own jumps are not ours; its epilogue may hold ours
+                if any(isinstance(x, ast.Name) and x.id == blk.ret for p_ in (s_.prologue, s_.body) for y in p_ for x in ast.walk(y)):
+                    sites.append(None)
+                scan(s_.epilogue)
+                continue
+            if isinstance(s_, ast.Assign) and len(s_.targets) == 1 and isinstance(s_.targets[0], ast.Name) and s_.targets[0].id == blk.ret:
+                if (isinstance(s_.value, ast.Constant) and isinstance(s_.value.value, bool) or _is_boolish(s_.value)) \
+                        and i + 1 < len(stmts) and isinstance(stmts[i + 1], InlineJump):
+                    sites.append((stmts, i))
+                elif isinstance(s_.value, ast.Constant) and s_.value.value is None and i == len(stmts) - 1 and stmts is blk.body:
+                    sites.append((stmts, i, "tail-none"))
+                else:
+                    sites.append(None)
+                continue
+            if any(isinstance(x, ast.Name) and x.id == blk.ret for x in ast.walk(s_)) and not any(isinstance(getattr(s_, f, None), list) for f in ("body", "orelse", "finalbody")):
+                sites.append(None)
+            for f in ("body", "orelse", "finalbody"):
+                if isinstance(getattr(s_, f, None), list) and not isinstance(s_, (ast.FunctionDef, ast.AsyncFunctionDef, ast.ClassDef)):
+                    scan(getattr(s_, f))
+            for h in getattr(s_, "handlers", []) or []:
+                scan(h.body)
+    scan(blk.body)
+    if not sites or any(x is None for x in sites):
+        return
+    # apply from the back of each list so that indices stay valid
+    for site in sorted([x for x in sites if len(x) == 2], key=lambda x: -x[1]):
+        stmts, i = site
+        if isinstance(stmts[i].value, ast.Constant):
+            k = stmts[i].value.value
+            taken = iff.body if (k != neg) else iff.orelse
+            stmts[i:i + 1] = copy.deepcopy(taken)
+        else:
+            # a boolean expression returned: the `if` is taken on it directly
+            tb, fb = (iff.orelse, iff.body) if neg else (iff.body, iff.orelse)
+            new_if = ast.copy_location(ast.If(test=stmts[i].value, body=copy.deepcopy(tb) or [ast.copy_location(ast.Pass(), iff)], orelse=copy.deepcopy(fb)), stmts[i])
+            ast.fix_missing_locations(new_if)
+            stmts[i:i + 1] = [new_if]
+    for site in [x for x in sites if len(x) == 3]:
+        stmts, i, _ = site
+        taken = iff.body if (False != neg) else iff.orelse      # falling off the end returns None: falsy
+        stmts[i:i + 1] = copy.deepcopy(taken)
+    blk.epilogue = []
+    blk.body = _truncate_dead(blk.body)
+
+
+def _truncate_dead(stmts):
+    """statements after one that always leaves (return / raise / break / continue / jump) are dropped, recursively"""
+    out = []
+    for st in stmts:
+        if not isinstance(st, (ast.FunctionDef, ast.AsyncFunctionDef, ast.ClassDef)):
+            for f in ("body", "orelse", "finalbody"):
+                if isinstance(getattr(st, f, None), list):
+                    new = _truncate_dead(getattr(st, f))
+                    setattr(st, f, new if (new or f != "body") else [ast.copy_location(ast.Pass(), st)])
+            for h in getattr(st, "handlers", []) or []:
+                h.body = _truncate_dead(h.body) or [ast.copy_location(ast.Pass(), h)]
+            if isinstance(st, InlineBlock):
+                st.epilogue = _truncate_dead(st.epilogue)
+        out.append(st)
+        if isinstance(st, (ast.Return, ast.Raise, ast.Break, ast.Continue, InlineJump)):
+            break
+    return out
+
+
 def _flatten_blocks(stmts):
     """An inlined helper whose only return is its last statement is a plain statement sequence: prologue; body; epilogue, and when the
     statement that received the result is `x = <result>` / `return <result>` the returned expression takes the place of the temporary."""
@@ -397,6 +487,7 @@ def _flatten_blocks(stmts):
             st.prologue = _flatten_blocks(st.prologue)
             st.body = _flatten_blocks(st.body)
             st.epilogue = _flatten_blocks(st.epilogue)
+            _thread_boolean_result(st)
             nj = _own_jumps(st.body)
             body = list(st.body)
             tail_jump = bool(body) and isinstance(body[-1], InlineJump)
@@ -1099,9 +1190,16 @@ class Normalizer:
                 assigned.add(n.id)
         used_in_args = {n.id for a in binding.values() for n in ast.walk(a) if isinstance(n, ast.Name)}
         ren = {}
+        aliased = set()
         for nm in sorted(hl):
             identity = nm in binding and isinstance(binding[nm], ast.Name) and binding[nm].id == nm and nm not in assigned
             if identity:
+                continue
+            # a parameter bound to a plain local of the caller that neither side re-binds is that local under another name
+            if nm in binding and isinstance(binding[nm], ast.Name) and nm not in assigned and binding[nm].id not in assigned \
+                    and binding[nm].id not in hl and binding[nm].id not in ("self", "cls"):
+                ren[nm] = binding[nm].id
+                aliased.add(nm)
                 continue
             if nm in state["locals"] or nm in used_in_args:
                 ren[nm] = f"{nm}__{hname}{k}"
@@ -1122,6 +1220,8 @@ class Normalizer:
             a = binding[p]
             tgt = ren.get(p, p)
             if isinstance(a, ast.Name) and a.id == tgt:
+                continue
+            if p in aliased:
                 continue
             asg = ast.Assign(targets=[ast.Name(id=tgt, ctx=ast.Store())], value=copy.deepcopy(a) if a in defaults else a, type_comment=None)
             ast.copy_location(asg, call)
